@@ -126,6 +126,7 @@ def constructors(tier):
     add("Padding[rel30,rel50,l1r1]", FB, lambda c: urwid.Padding(c, ("relative", 30), ("relative", 50), left=1, right=1))
     add("Padding[center,rel60,min2]", FB, lambda c: urwid.Padding(c, "center", ("relative", 60), min_width=2))
     add("Padding[right,pack,l2]", FX, lambda c: urwid.Padding(c, "right", "pack", left=2))
+    add("Padding[left,pack,l1r2]", FX, lambda c: urwid.Padding(c, "left", "pack", left=1, right=2))
     add("Padding[left,1,r3]", FB, lambda c: urwid.Padding(c, "left", 1, right=3))
     # Filler
     for va in ("top", "middle", "bottom", ("relative", 70)):
@@ -157,6 +158,7 @@ def constructors(tier):
     add("Pile[weightSolid,given1;f1]", B, lambda c: urwid.Pile([("weight", 1, S("s")), (1, c)], focus_item=1))
     add("Pile[weight3,weight1Solid]", B, lambda c: urwid.Pile([("weight", 3, c), ("weight", 1, S("s"))]))
     add("Pile[pack,weightSolid]", F, lambda c: urwid.Pile([("pack", c), S("s")]))
+    add("Pile[weight0-flow,Text]", F, lambda c: urwid.Pile([("weight", 0, c), T("z")]))
     add("Pile[x3flow]", F, lambda c: urwid.Pile([T("y"), c, ("pack", T("z\nz"))], focus_item=1))
     add("Pile[x3box]", B, lambda c: urwid.Pile([("pack", T("y")), c, ("pack", T("z\nz"))], focus_item=1))
     # Columns
@@ -249,6 +251,9 @@ def shape(name):
             j = r.rindex(")")
             r = r[:i] + r[i + len(t) + 1 : j] + r[j + 1 :]
     return r
+
+
+PACKPAD_RE = re.compile(r"Padding\[\w+,pack")
 
 
 def culprit(name):
@@ -354,6 +359,9 @@ def check_render(ctx: Ctx, mode, name, shp, path, build, size, focus, inherited=
         who = inherited.get(kind) or shp
         if EMPTY_RE.search(name):
             who = "contains-empty-container"
+        elif clause == "flow-size" and who == shp and PACKPAD_RE.match(who) and "(" in name:
+            # rows() of a packed Padding depends on what it wraps (known: GridFlow): the child's class is part of the root cause
+            who = who + ">" + culprit(name[name.index("(") + 1 : -1]).split("[")[0]
         kinds.setdefault(kind, who)
         ctx.violation(clause, f"C01/{clause}/{who}/{sc}{('/' + site) if site else ''}", case, detail)
 
